@@ -307,6 +307,66 @@ Example C04_history :
      AStr (Some "2/2/2/2/-1"); AList (Ok ["1/0/0/0"])]%string.
 Proof. exact history_example. Qed.
 
+(* ---- 15. The regenerated INT64 kernels (theories/GenC04.v over generated/Generated64.v: the threshold of NewHighSpatialID and Higher
+   translated from /repo's Go source with Go's int64 semantics; Some (v, true) = returns v and no operation wrapped, None = panic).
+   These replace the former assumption "int64 = Z on the property's domain" for the two integer kernels of the merge. ---- *)
+From SID Require GenC04 I64.
+From SIDGen Require Generated64.
+(* zooms 0..35 and threshold exponent <= 62: the code computes exactly the mathematical threshold, without any wrap *)
+Theorem C04_gen64_threshold_is_exact : forall H V MH MV hz vz, 0 <= H <= hz /\ hz <= MH <= 35 -> 0 <= V <= vz /\ vz <= MV <= 35 ->
+  2 * (MH - H) + (MV - V) <= 62 ->
+  Generated64.NewHighSpatialID_threshold (MH - hz) (MV - vz) (hz - H) (vz - V) = Some (thr H V MH MV, true).
+Proof. exact GenC04.gen64_threshold_is_thr. Qed.
+Print Assumptions C04_gen64_threshold_is_exact.
+
+(* zooms 0..35, any exponent (also 63..105 where the product wraps): Go's value is the threshold thr64 of the executable model merge64.
+   (thr64 is Go's value for 0 <= MV-V <= 63 only — beyond, the saturated power differs, GenEq64Merge.thr64_differs_beyond; zooms <= 35
+   and the harness bound MV-V <= 40 never get there.) *)
+Theorem C04_gen64_threshold_value_is_thr64 : forall H V MH MV hz vz, 0 <= H <= hz /\ hz <= MH <= 35 -> 0 <= V <= vz /\ vz <= MV <= 35 ->
+  I64.go_value (Generated64.NewHighSpatialID_threshold (MH - hz) (MV - vz) (hz - H) (vz - V)) = Some (thr64 H V MH MV).
+Proof. exact GenC04.gen64_threshold_go_value_is_thr64. Qed.
+Print Assumptions C04_gen64_threshold_value_is_thr64.
+
+(* the first wraps, computed on the generated kernel: exponent 62 exact, 63 -> MinInt64, 64 -> 0 *)
+Theorem C04_gen64_threshold_first_wraps :
+  Generated64.NewHighSpatialID_threshold 0 0 31 0 = Some (2 ^ 62, true) /\
+  Generated64.NewHighSpatialID_threshold 0 0 31 1 = Some (- 2 ^ 63, false) /\
+  Generated64.NewHighSpatialID_threshold 0 0 32 0 = Some (0, false) /\
+  thr64 0 0 31 1 = - 2 ^ 63 /\ thr64 0 0 32 0 = 0.
+Proof. exact GenC04.gen64_threshold_first_wraps. Qed.
+Print Assumptions C04_gen64_threshold_first_wraps.
+
+(* the count test of the Go code, with the threshold the int64 code computes, is the covering test of the specification *)
+Theorem C04_gen64_count_test_is_covering_test : forall H V ids i,
+  0 <= H <= 35 -> 0 <= V <= 35 -> (forall j, In j ids -> valid j) -> fits64 H V ids -> In i ids -> elig H V i ->
+  exists t, Generated64.NewHighSpatialID_threshold (maxz eh ids - eh i) (maxz ev ids - ev i) (eh i - H) (ev i - V) = Some (t, true) /\
+    (Z.of_nat (List.length (nodupb eid_eqb (flat_map (units (maxz eh ids) (maxz ev ids)) (group H V (el H V ids) (tgt H V i))))) = t
+     <-> fullS H V (fun j => In j ids) (tgt H V i)).
+Proof. exact GenC04.gen64_count_test_is_covering. Qed.
+Print Assumptions C04_gen64_count_test_is_covering_test.
+
+(* Higher on int64: for a valid ID and differences 0..61 no operation wraps and the result is the floor ancestor on all three axes *)
+Theorem C04_gen64_Higher_is_floor_ancestor : forall i hd vd, valid i -> 0 <= hd <= 61 -> 0 <= vd <= 61 ->
+  Generated64.ExtendedSpatialID_Higher (eh i) (ex i) (ey i) (ev i) (ef i) hd vd =
+    Some (GenTac.eid_tuple {| eh := eh i - hd; ex := anc hd (ex i); ey := anc hd (ey i); ev := ev i - vd; ef := anc vd (ef i) |}, true).
+Proof. exact GenC04.gen64_Higher_is_floor_ancestor. Qed.
+Print Assumptions C04_gen64_Higher_is_floor_ancestor.
+
+(* negative differences: hDiff < 0 panics (division by zero); vDiff < 0 does not panic (shift count uint64(vDiff), sign fill) *)
+Theorem C04_gen64_Higher_negative_differences :
+  (forall h x y v f hd vd, hd < 0 -> Generated64.ExtendedSpatialID_Higher h x y v f hd vd = None) /\
+  (forall h x y v f hd vd, 0 <= hd <= 61 -> vd < 0 ->
+     exists hz xx yy vz e, Generated64.ExtendedSpatialID_Higher h x y v f hd vd = Some ((hz, xx, yy, vz, if f <? 0 then -1 else 0), e)).
+Proof. exact GenC04.gen64_Higher_negative_differences. Qed.
+Print Assumptions C04_gen64_Higher_negative_differences.
+
+Example C04_gen64_examples :
+  Generated64.NewHighSpatialID_threshold 1 2 1 2 = Some (256, true) /\
+  Generated64.ExtendedSpatialID_Higher 3 5 5 3 (-2) 1 1 = Some ((2, 2, 2, 2, -1), true) /\
+  Generated64.ExtendedSpatialID_Higher 3 5 5 3 (-2) (-1) 1 = None /\
+  I64.go_value (Generated64.ExtendedSpatialID_Higher 3 5 5 3 (-2) 1 (-1)) = Some (2, 2, 2, 4, -1).
+Proof. repeat split; vm_compute; reflexivity. Qed.
+
 (* ---- non-vacuity ---- *)
 (* the two halves on either side of ground level are NOT fused (the defect repaired by 27792ec), two halves below ground are *)
 Example C04_ground_level :
@@ -337,8 +397,9 @@ Proof. vm_compute. reflexivity. Qed.
 (* ---- tie to the source by regeneration (DESIGN.md 4.2): ExtendedSpatialID.Higher translated from /repo's current source is ZoomCore.higher ---- *)
 From SIDGen Require Generated.
 From SID Require GenTac GenEqHigher.
-(* stated for 0 <= hDiff, vDiff <= 62 only: there int64(math.Pow(2, d)) = 2^d; for hDiff < 0 the Go code divides by int64(0.5) = 0 and
-   panics, for hDiff >= 63 the conversion overflows — the translation to Z.pow says nothing about the code outside this range *)
+(* stated for 0 <= hDiff, vDiff <= 62 only: there int64(math.Pow(2, d)) = 2^d and the shift count is the difference. For hDiff < 0 the Go code
+   divides by int64(0.5) = 0 and panics; for vDiff < 0 it does NOT panic (the count is uint64(vDiff), the shift fills with the sign) while the
+   Z-model shifts left; for hDiff >= 63 the conversion saturates. The int64 statements are C04_gen64_Higher_* below. *)
 Theorem C04_generated_Higher_is_the_model : forall h x y v f hd vd, 0 <= hd <= 62 -> 0 <= vd <= 62 ->
   Generated.ExtendedSpatialID_Higher h x y v f hd vd = GenTac.eid_tuple (ZoomCore.higher (Ids.mk h x y v f) hd vd).
 Proof. exact (fun h x y v f hd vd _ _ => GenEqHigher.gen_ExtendedSpatialID_Higher_eq h x y v f hd vd). Qed.
